@@ -227,11 +227,12 @@ Section Top.
     apply andb_true_iff in Hcw as [_ Hsn].
     unfold rpc_request, srpc_req. cbn [iter_doc]. unfold rpc_go. cbn [num_of].
     assert (Hname : match skey c st (sg_name s) with
-                    | JStr s0 => Some s0
-                    | JBytes b => utf8_dec b
-                    | _ => None
-                    end = Some (sg_name s)).
-    { unfold skey. destruct (msgpack c && st_key_bin st); [|reflexivity]. apply utf8_bytes_dec, Hsn. }
+                    | JStr s0 => Ok (Some s0)
+                    | JBytes b => match utf8_dec b with Some n => Ok (Some n) | None => Crash UnicodeError end
+                    | _ => Ok None
+                    end = Ok (Some (sg_name s))).
+    { unfold skey. destruct (msgpack c && st_key_bin st); [|reflexivity].
+      rewrite (utf8_bytes_dec _ Hsn). reflexivity. }
     rewrite Hname, Hfind. fold U'. rewrite spositional_eq.
     pose proof (d2o_positional c U' false st (leaf_dec c) Hwf (fun E => ltac:(discriminate E))
                                (fun nillable k l => leaf_dec_spec c st nillable k l Hst)
